@@ -375,6 +375,20 @@ pub fn run(tier: Tier, seed: u64) -> i32 {
             cx.path();
         }));
     }
+    // stateright cross-count of the merged crash-point LTS (thorough)
+    let mut cross = json!(null);
+    if tier.thorough() {
+        let api = all_apis()[0];
+        if let (Ok(w1), Ok(w2)) = (world(&api, 1, 0, true, seed), world(&api, 1, 0, true, seed)) {
+            let mut cx = Cx::new("C13", api.name());
+            let mine = explore::bfs(&w1, &mut cx, 100_000);
+            let (s, d) = explore::stateright_count(w2, 16);
+            cross = json!({"suite": api.name(), "mine": {"states": mine.states, "depth": mine.max_depth}, "stateright": {"states": s, "depth": d}, "agree": s == mine.states && d == mine.max_depth});
+            if !(s == mine.states && d == mine.max_depth) {
+                tot.machinery_errors.push(format!("stateright cross-count disagrees: {}", cross));
+            }
+        }
+    }
     let rep = Report {
         property: "C13",
         tier,
@@ -383,7 +397,7 @@ pub fn run(tier: Tier, seed: u64) -> i32 {
         bounds: json!({"suites": 20, "settings": 2, "tapes": 2, "choices_per_point": nch, "reload_subsets_per_flow": nch.pow(6), "explicit_unmerged_flows": explicit, "models": models.into_inner().unwrap()}),
         assumptions: vec!["state merging is sound because every step is a pure function of the bytes in the state and the tape of that step (C17 decides that determinism)".into()],
         exhaustive: true,
-        crosscheck: json!(null),
+        crosscheck: cross,
     };
     fw::finish(rep, tot, t0)
 }
